@@ -45,3 +45,9 @@ def run(ctx):
     ctx.floor("B6", 6)
     ctx.floor("B7", 6)
     ctx.floor("J5", 6)
+    # what the derived forms override must be what runs: no copy of an overridden delegate, no call pinned to the base class
+    from ..engines import dispatch as DP
+    DP.d1_no_bypass_of_overridden_delegates(ctx, ("AbstractRule",))
+    ctx.floor("D1", 1)
+    B.b14_stacks_balanced(ctx, only_classes=("Isomorphism",))
+    ctx.floor("B14", 1)
